@@ -32,7 +32,8 @@ type c15Name struct {
 }
 
 // canary tree:  root/canary  root/outer/canary  root/outer/x root/outer/y (decoys)  root/outer/sib/...
-//               root/outer/arch/  <- the archive lives here      root/abs/...   targets of absolute names
+//
+//	root/outer/arch/  <- the archive lives here      root/abs/...   targets of absolute names
 func buildCanaryTree(root string) error {
 	if err := sandbox.Fresh(root); err != nil {
 		return err
